@@ -9,6 +9,17 @@ import framework as fw, nums
 ID = "C20"
 FAMILY = "repart"
 OCAML_SRCS = ("conv.ml", "drv_repart.ml")
+ASSUMPTIONS = [
+    "model input = the per-rank views ParCOOMatrix::finalize/to_ParCSR store (checked on every case: key VIEW)",
+    "the INPUT matrix's own package delivers the owner's value (A->comm->communicate(partition) / (row_scales)): property C03; "
+    "the package of the OUTPUT matrix is modelled and proved valid (C20_repart_package_valid)",
+    "MPI delivers every message once; any-source arrival orders are the parameters sched/tau of the model (theorems hold for all of them); "
+    "the implementation's actual arrival order is not controlled by the harness",
+    "std::sort sorts (keys are distinct: old row ids / (owner, old column id))",
+    "executed model: exact rationals; Qc_sqrt exact on squares only (generated diagonals are +-squares); theorems are over an abstract field with abstract sqrt/abs",
+    "diagonally_scale is called with an empty row_scales vector (the model also covers a non-empty one: resize keeps old entries)",
+    "reads past the end of idx2 (row_scale/diagonally_scale on a rank whose trailing on-process rows are all empty) are undefined behaviour and never generated",
+]
 PROCS = (2, 3, 4, 6, 2, 3, 4, 6, 2, 3, 4, 6, 1, 5)
 
 # ---------------------------------------------------------------- generation
@@ -31,14 +42,15 @@ def rand_blocks(rng, n, P):
 SQ = [Fraction(1, 4), Fraction(1), Fraction(4), Fraction(16), Fraction(9), Fraction(1, 16), Fraction(64), Fraction(25, 4)]
 P2 = [Fraction(1, 4), Fraction(1, 2), Fraction(1), Fraction(2), Fraction(4), Fraction(8), Fraction(3), Fraction(5)]
 
-def rand_matrix(rng, n, diag_pool, density=None, drop_diag=0.0, first=None):
+def rand_matrix(rng, n, diag_pool, density=None, drop_diag=0.0, first=None, val_pool=None):
     """square, non-symmetric, no duplicate positions, nonzero values, nonzero diagonal (unless dropped)"""
     d = {}
     dens = density if density is not None else rng.choice([0.15, 0.3, 0.5, 0.9])
     for i in range(n):
         for j in range(n):
             if i != j and rng.random() < dens:
-                d[(i, j)] = Fraction(rng.choice([-3, -2, -1, 1, 2, 3, 5, 7]), rng.choice([1, 1, 1, 2, 4]))
+                if val_pool: d[(i, j)] = rng.choice(val_pool) * rng.choice([1, -1])
+                else: d[(i, j)] = Fraction(rng.choice([-3, -2, -1, 1, 2, 3, 5, 7]), rng.choice([1, 1, 1, 2, 4]))
     protect = set()
     if first is not None:
         for q in range(len(first) - 1):
@@ -132,7 +144,10 @@ def gen_case(ctx, k):
     else:
         nodiag = rng.random() < 0.15
         pool = SQ if kind == "dscale" else P2
-        trip, dropped = rand_matrix(rng, n, pool, drop_diag=(0.3 if nodiag else 0.0), first=first)
+        # without a stored diagonal the code may take a neighbouring entry for the diagonal (empty on-process row): keep
+        # every value a +-square then, so that the executed model's sqrt stays exact
+        trip, dropped = rand_matrix(rng, n, pool, drop_diag=(0.3 if nodiag else 0.0), first=first,
+                                    val_pool=(SQ if (nodiag and kind == "dscale") else None))
         vs = views_of(n, first, trip)
         b = rand_vec(rng, n, dy=True)
         c.update(trip=trip, views=vs, dropped=dropped, b=b)
